@@ -30,15 +30,20 @@ def population(ctx, name, maxl, tlevels, th, want, tunit=None):
     sh = pl.Shape(name, maxl, tlevels, tunit)
     st["time_unit"] = sh.tunit
     by = {}
+    inadmissible = 0
     for te, tr in pairs:
         if not want(sh, te, tr):
             continue
+        if not sh.admissible(te, tr):
+            inadmissible += 1       # cannot be two leaves (or leaf and child / quarter) of one 1-irregular mesh: outside the quantifier
+            continue
         by.setdefault((sh.space_rel(te, tr), sh.allen(te, tr)), []).append((te, tr))
     st["classes"] = len(by)
+    st["pairs_outside_quantifier"] = inadmissible
     return st, sh, by
 
 
-def report(ctx, name, recs, bad, missing, jres, keyfn, maxl, tlevels):
+def report(ctx, name, recs, bad, missing, jres, keyfn, maxl, tlevels, th=2, tunit=None):
     if jres.machinery_error:
         ctx.machinery_error("judge %s: %s" % (name, jres.machinery_error))
         return
@@ -48,7 +53,7 @@ def report(ctx, name, recs, bad, missing, jres, keyfn, maxl, tlevels):
             ctx.spec_drift("%s: %s for %r" % (name, clause, {k: v for k, v in r.items() if k in ("chan", "te", "tr", "cls", "g", "s", "split")}))
             continue
         ctx.violation(keyfn(clause, r), "%s on %s: %r" % (clause, name, {k: v for k, v in r.items() if k not in ("decomp",)}),
-                      {"curve": name, "MaxL": maxl, "TLevels": tlevels, "record": r})
+                      {"curve": name, "MaxL": maxl, "TLevels": tlevels, "TH": th, "time_unit": tunit, "record": r})
     if missing:
         ctx.machinery_error("classes never exercised on %s: %r" % (name, missing[:6]))
 
@@ -74,6 +79,11 @@ def run_c04(prop, tier, seed):
             lst = by[cls]
             rng.shuffle(lst)
             sel += [(cls, te, tr) for te, tr in lst[:per_class]]
+        # a pair kept in every run: far apart on one side, thin slabs (exact value 1e-21 of the diagonal scale)
+        if (name, maxl, tlevels) == ("UnitSquare", 3, 1) and tu:
+            for cls in by:
+                if ((1, 2, 0, 1), (0, 2, 7, 8)) in by[cls] and (cls, (1, 2, 0, 1), (0, 2, 7, 8)) not in sel:
+                    sel.append((cls, (1, 2, 0, 1), (0, 2, 7, 8)))
         # reference values only for causal pairs (positivity clause) and the diagonals (scale)
         jobs = []
         for cls, te, tr in sel:
@@ -95,7 +105,8 @@ def run_c04(prop, tier, seed):
                 with contextlib.redirect_stdout(io.StringIO()):
                     v = float(f())
                 recs.append({"chan": chan, "te": list(te), "tr": list(tr), "cls": list(cls), "zero": v == 0.0,
-                             "nonneg": v >= -1e-15 * D, "refpos": ref > 1e-250, "pos": v > 0.0, "value": repr(v)})
+                             "nonneg": v >= -1e-15 * D, "refpos": ref > 1e-250, "pos": v > 0.0, "value": repr(v),
+                             "below_rounding": bool(0.0 < ref < 1e-15 * D), "ref_over_scale": repr(ref / D)})
                 required.add((chan, cls[0], cls[1]))
         # point channels: evaluate / evaluate_exact / potential at the five time positions
         elems = sorted({tr for _, _, tr in sel})
@@ -128,7 +139,8 @@ def run_c04(prop, tier, seed):
         st.update({"selected_pairs": len(sel), "judged": len(recs), "judge_tlc": jres.stats(),
                    "point_records": sum(1 for r in recs if r["chan"] in ("evaluate", "evaluate_exact", "potential"))})
         report(ctx, name, recs, bad, missing, jres,
-               lambda clause, r: "%s:%s:%s" % (clause, r["chan"], r.get("cls", ["point"])[-1] if "cls" in r else "point"), maxl, tlevels)
+               lambda clause, r: "%s%s:%s:%s" % (clause, "-below-rounding" if clause == "not-positive" and r.get("below_rounding") else "",
+                                                 r["chan"], r.get("cls", ["point"])[-1] if "cls" in r else "point"), maxl, tlevels, th, sh.tunit)
         total += len(recs)
         cells |= {(name,) + q for q in required}
         if recs and len(samples) < 3:
